@@ -335,6 +335,14 @@ def _has_value(seg):
 
 def is_term(v): return isinstance(v, tuple)
 
+class GuardList(list):
+    """the refusals met during an evaluation; each records the path facts under which it was evaluated"""
+    def __init__(self, interp): list.__init__(self); self.interp = interp
+    def append(self, g):
+        try: g.setdefault('ctx', [c for c, _ in self.interp.st.facts])
+        except Exception: g.setdefault('ctx', [])
+        list.append(self, g)
+
 class Interp:
     def __init__(self, facts, abstract=()):
         self.f = facts
@@ -342,7 +350,7 @@ class Interp:
         self.st = State(); sym.CTX = self.st.ranges
         self.tops = []          # (reason, span)
         self.casts = []         # narrowing casts met: (from, to, term, span, fits)
-        self.guards = []        # (cond term, span, 'assert'|'panic-arm')
+        self.guards = GuardList(self)   # {cond, sp, kind ('assert'|'panic-arm'|'unwrap'|...), ctx: path facts when it was evaluated}
         self.visited_casts = set()   # spans of every int cast evaluated
         self.visited_arith = set()   # spans of every + - * << evaluated
         self.arith_sites = []        # arithmetic whose mathematical result may leave the type's range
